@@ -2,6 +2,7 @@ package cmd
 
 import (
 	"fmt"
+	"sort"
 	"strings"
 
 	"github.com/evolbioinfo/goalign/align"
@@ -152,7 +153,7 @@ Output file is an unaligned set of sequences in fasta.
 		fmt.Fprintf(logf, "SeqName\tBestRef\tStartPosition\tExtractedSequenceLength\tFirstStop\n")
 		phasedseqs := align.NewSeqBag(align.UNKNOWN)
 		phasedseqsaa := align.NewSeqBag(align.UNKNOWN)
-		for p := range phased {
+		for p := range inputOrder(phased, inseqs) {
 			if p.Err != nil {
 				err = p.Err
 				io.LogError(p.Err)
@@ -190,4 +191,35 @@ func init() {
 	phaseCmd.PersistentFlags().BoolVar(&phasereverse, "reverse", false, "Search ALSO in the reverse strand (in addition to the forward strand)")
 	phaseCmd.PersistentFlags().BoolVar(&phasecutend, "cut-end", false, "Iftrue, then also remove the end of sequences that do not align with orf")
 	phaseCmd.PersistentFlags().StringVar(&orfsequence, "ref-orf", "none", "Reference ORF to phase against (if none is given, then will try to get the longest orf in the input data)")
+}
+
+// inputOrder puts phased sequences, which arrive in the order the workers finish,
+// back in the order of the input sequences (same output whatever the number of threads)
+func inputOrder(phased chan align.PhasedSequence, inseqs align.SeqBag) chan align.PhasedSequence {
+	rank := make(map[string]int)
+	inseqs.IterateChar(func(name string, s []uint8) bool {
+		if _, ok := rank[name]; !ok {
+			rank[name] = len(rank)
+		}
+		return false
+	})
+	results := make([]align.PhasedSequence, 0, len(rank))
+	for p := range phased {
+		results = append(results, p)
+		if p.Err != nil {
+			break
+		}
+	}
+	sort.SliceStable(results, func(i, j int) bool {
+		if results[i].Err != nil || results[j].Err != nil {
+			return results[i].Err != nil && results[j].Err == nil
+		}
+		return rank[results[i].NtSeq.Name()] < rank[results[j].NtSeq.Name()]
+	})
+	out := make(chan align.PhasedSequence, len(results))
+	for _, p := range results {
+		out <- p
+	}
+	close(out)
+	return out
 }
